@@ -201,8 +201,12 @@ class Gen:
                 r = rng.random()
                 if r < 0.6:
                     key = ["str", [rng.choice(["a", "b", "k", "x y", "c-d", "@e", "1"])]]
-                elif r < 0.75:
-                    key = ["int", rng.choice([1, 2])]
+                elif r < 0.72:
+                    key = ["int", rng.choice([1, 2, 0])]
+                elif r < 0.78:
+                    # falsy / None / bool keys, literal or through a variable or a missing variable
+                    self.features.add("dict-key-none-or-bool")
+                    key = rng.choice([["none"], ["true"], ["false"], ["var", "v_none"], ["var", "v_f"], ["var", "v_t"], ["str", []], ["var", "v_missing"]])
                 elif r < 0.9:
                     key = ["var", rng.choice(VARS_HASHABLE)]
                 else:
